@@ -13,7 +13,8 @@
 (*   Enclosure (C03): the carried point stays inside the carried interval  *)
 (*             unless the interval is the NaN interval or the point is NaN.*)
 (*             GuardedInf = FALSE reproduces the defect repaired in sin /  *)
-(*             cos / rem_euclid (overflow, wave, times [0,0], not).        *)
+(*             cos / rem_euclid (28471dc), in mul (674efe4: 0 * INF at an  *)
+(*             interior point) and in add / sub (71f5367: INF - INF).      *)
 (***************************************************************************)
 EXTENDS Integers, Sequences, FiniteSets, TLC
 CONSTANTS M, MaxDepth, GuardedProducts, Guarded,    \* Guarded = TRUE: Add/Sub/Mul-by-imm return the NaN interval when a bound is NaN
@@ -47,20 +48,28 @@ New(lo, hi) == IF Le(lo, hi) \/ (IsNan(lo) /\ IsNan(hi)) THEN <<lo, hi>> ELSE IL
 NanIv == <<NAN, NAN>>
 HasNan(i) == IsNan(i[1]) \/ IsNan(i[2])
 G(lo, hi) == IF Guarded /\ (IsNan(lo) \/ IsNan(hi)) THEN NanIv ELSE New(lo, hi)
-IAdd(a, b) == G(FAdd(a[1], b[1]), FAdd(a[2], b[2]))
-ISub(a, b) == G(FSub(a[1], b[2]), FSub(a[2], b[1]))
+(* with GuardedInf the two other bound combinations are examined too: they are NaN exactly when the ranges hold  *)
+(* infinities whose sum / difference is NaN at some point (71f5367)                                               *)
+IAdd(a, b) == IF GuardedInf /\ (IsNan(FAdd(a[1], b[2])) \/ IsNan(FAdd(a[2], b[1]))) THEN NanIv
+              ELSE G(FAdd(a[1], b[1]), FAdd(a[2], b[2]))
+ISub(a, b) == IF GuardedInf /\ (IsNan(FSub(a[1], b[1])) \/ IsNan(FSub(a[2], b[2]))) THEN NanIv
+              ELSE G(FSub(a[1], b[2]), FSub(a[2], b[1]))
 INeg(a) == New(FNeg(a[2]), FNeg(a[1]))
 IAbs(a) == IF Lt(a[1], 0) THEN (IF Lt(0, a[2]) THEN New(0, RMax(a[2], FNeg(a[1]))) ELSE New(FNeg(a[2]), FNeg(a[1]))) ELSE a
 ISquare(a) == IF Lt(a[2], 0) THEN New(FMul(a[2], a[2]), FMul(a[1], a[1]))
               ELSE IF Lt(0, a[1]) THEN New(FMul(a[1], a[1]), FMul(a[2], a[2]))
               ELSE IF HasNan(a) THEN NanIv
               ELSE LET m == RMax(FAbs(a[1]), FAbs(a[2])) IN New(0, FMul(m, m))
+HasInf(a) == IsInf(a[1]) \/ IsInf(a[2])
+Has0(a) == Le(a[1], 0) /\ Le(0, a[2])
 IMul(a, b) == IF HasNan(a) \/ HasNan(b) THEN NanIv
+              ELSE IF GuardedInf /\ ((HasInf(a) /\ Has0(b)) \/ (HasInf(b) /\ Has0(a))) THEN NanIv     \* 0 * INF inside the ranges (674efe4)
               ELSE LET p == <<FMul(a[1], b[1]), FMul(a[1], b[2]), FMul(a[2], b[1]), FMul(a[2], b[2])>>
                        lo == RMin(RMin(RMin(p[1], p[2]), p[3]), p[4])
                        hi == RMax(RMax(RMax(p[1], p[2]), p[3]), p[4])
                    IN IF GuardedProducts /\ \E k \in 1..4 : IsNan(p[k]) THEN NanIv ELSE New(lo, hi)
 IMulImm(a, k) == IF HasNan(a) \/ IsNan(k) THEN NanIv
+                 ELSE IF GuardedInf /\ IsInf(k) /\ Has0(a) THEN NanIv
                  ELSE IF k < 0 THEN G(FMul(a[2], k), FMul(a[1], k)) ELSE G(FMul(a[1], k), FMul(a[2], k))
 IMin(a, b) == IF HasNan(a) \/ HasNan(b) THEN NanIv ELSE New(RMin(a[1], b[1]), RMin(a[2], b[2]))
 IMax(a, b) == IF HasNan(a) \/ HasNan(b) THEN NanIv ELSE New(RMax(a[1], b[1]), RMax(a[2], b[2]))
